@@ -21,13 +21,17 @@
 //! add-only hook: recorded as an assumption) and must not decrease when `luma()` increases (order only).
 //! TrueColor: parameters are exactly `r;g;b`; every role carries its own selector.
 //!
+//! Whole commands (`face_path`): `Face` and a `FaceModify` with foreground, background and underline colour are
+//! interpreted as a terminal reads SGR parameters (`interpret`: last selection wins); per role the selection in
+//! effect must be the one the role's colour gets on its own (judged above); Gray: an underline colour selects nothing.
+//!
 //! Terminal glue (module `glue`): the real terminal object on a pty, constructed on every detection path of
 //! `capabilities_detect`; its output for Face / FaceModify is judged and compared with the model at the depth
 //! it reports through `capabilities().depth`.
 use serde_json::{Value, json};
 use std::collections::HashSet;
 use surf_n_term::encoder::{ColorDepth, Encoder, TTYEncoder, verif_c20};
-use surf_n_term::{Color, Face, FaceAttrs, FaceModify, LinColor, RGBA, TerminalCaps, TerminalCommand};
+use surf_n_term::{Color, Face, FaceAttrs, FaceModify, LinColor, RGBA, TerminalCaps, TerminalCommand, UnderlineStyle};
 use verif_harness::{Cfg, guarded, out::Out, out::hex, r#gen::Rng};
 
 const REL_TOL: f64 = 1e-3; // the property's "visibly closer"
@@ -238,6 +242,97 @@ fn params(buf: &[u8]) -> Option<Vec<u32>> {
         res.push(std::str::from_utf8(part).ok()?.parse().ok()?);
     }
     Some(res)
+}
+
+/// one colour selection as a terminal understands it
+#[derive(Clone, Copy, PartialEq, Debug)]
+enum Sel {
+    /// 30..37, 90..97, 40..47, 100..107
+    Basic(u32),
+    Indexed(u32),
+    Rgb(u32, u32, u32),
+}
+
+/// the colour selections in effect after a terminal has read an SGR sequence (later parameters override
+/// earlier ones, `0` resets, 39 / 49 / 59 select the default = nothing)
+#[derive(Clone, Copy, PartialEq, Debug, Default)]
+struct Eff {
+    fg: Option<Sel>,
+    bg: Option<Sel>,
+    ul: Option<Sel>,
+}
+
+impl Eff {
+    fn show(&self) -> String {
+        format!("fg={:?} bg={:?} underline-colour={:?}", self.fg, self.bg, self.ul)
+    }
+}
+
+/// Interpret `ESC [ … m` the way a terminal does; empty output selects nothing; `None` = not an SGR sequence.
+fn interpret(buf: &[u8]) -> Option<Eff> {
+    let mut eff = Eff::default();
+    if buf.is_empty() {
+        return Some(eff);
+    }
+    let body = buf.strip_prefix(b"\x1b[")?.strip_suffix(b"m")?;
+    let mut ps: Vec<Vec<u32>> = Vec::new();
+    for part in body.split(|c| *c == b';') {
+        let mut subs = Vec::new();
+        for sub in part.split(|c| *c == b':') {
+            if sub.len() > 9 || !sub.iter().all(|c| c.is_ascii_digit()) {
+                return None;
+            }
+            subs.push(if sub.is_empty() { 0 } else { std::str::from_utf8(sub).ok()?.parse().ok()? });
+        }
+        ps.push(subs);
+    }
+    let mut i = 0;
+    while i < ps.len() {
+        let p = &ps[i];
+        let code = p[0];
+        if matches!(code, 38 | 48 | 58) {
+            let sel = if p.len() > 1 {
+                // colon form: 38:5:n, 38:2:r:g:b, 38:2::r:g:b
+                match p[1] {
+                    5 if p.len() >= 3 => Sel::Indexed(p[2]),
+                    2 if p.len() >= 5 => Sel::Rgb(p[p.len() - 3], p[p.len() - 2], p[p.len() - 1]),
+                    _ => return None,
+                }
+            } else {
+                let one = |k: usize| ps.get(k).filter(|q| q.len() == 1).map(|q| q[0]);
+                match one(i + 1) {
+                    Some(5) => {
+                        let n = one(i + 2)?;
+                        i += 2;
+                        Sel::Indexed(n)
+                    }
+                    Some(2) => {
+                        let (r, g, b) = (one(i + 2)?, one(i + 3)?, one(i + 4)?);
+                        i += 4;
+                        Sel::Rgb(r, g, b)
+                    }
+                    _ => return None,
+                }
+            };
+            match code {
+                38 => eff.fg = Some(sel),
+                48 => eff.bg = Some(sel),
+                _ => eff.ul = Some(sel),
+            }
+        } else if p.len() == 1 {
+            match code {
+                0 => eff = Eff::default(),
+                30..=37 | 90..=97 => eff.fg = Some(Sel::Basic(code)),
+                40..=47 | 100..=107 => eff.bg = Some(Sel::Basic(code)),
+                39 => eff.fg = None,
+                49 => eff.bg = None,
+                59 => eff.ul = None,
+                _ => {}
+            }
+        }
+        i += 1;
+    }
+    Some(eff)
 }
 
 fn canon(buf: &[u8], p: &Option<Vec<u32>>) -> String {
@@ -945,6 +1040,18 @@ impl Ctx {
                     }
                 }
             }
+            if role == 2 {
+                // there is no underline-colour code among the four grey levels: nothing may be selected
+                let eff = interpret(&self.eg.buf);
+                if eff != Some(Eff::default()) {
+                    self.fail(
+                        "grey depth: an underline colour must select nothing (no colour code exists for it among the four grey levels), but the parameters change a colour selection",
+                        json!({"depth": "gray", "role": "ul", "r": r, "g": g, "b": b}),
+                        json!("no parameters"),
+                        json!({"parameters": got, "selects": eff.map(|e| e.show())}),
+                    );
+                }
+            }
             if (sample || (role == 2 && got != "-")) && !near_mid {
                 if let Some(l) = lint {
                     self.out.corr(&format!("c20 sgr gray {} {} {} {} {}", ROLES[role], r, g, b, l), &got);
@@ -966,7 +1073,8 @@ impl Ctx {
     }
 
     /// `TerminalCommand::Face` path (fg + bg in one sequence) under every depth
-    fn face_path(&mut self, fg: [u8; 3], bg: [u8; 3]) {
+    fn face_path(&mut self, fg: [u8; 3], bg: [u8; 3], ul: [u8; 3]) {
+        let cu = RGBA::new(ul[0], ul[1], ul[2], 255);
         let cf = RGBA::new(fg[0], fg[1], fg[2], 255);
         let cb = RGBA::new(bg[0], bg[1], bg[2], 255);
         let face = Face::new(Some(cf), Some(cb), FaceAttrs::EMPTY);
@@ -975,6 +1083,8 @@ impl Ctx {
             t2 <= t1 * (1.0 + TIE_REL) + 1e-13
         };
         let any_masked = masked(self, fg) || masked(self, bg);
+        let ul_masked = masked(self, ul);
+        let straight = (fg[0] ^ bg[1] ^ ul[2]) & 1 == 0;
         for depth in 0..3 {
             // expected: `0` followed by what the two roles give on their own
             let (name, e) = match depth {
@@ -983,9 +1093,25 @@ impl Ctx {
                 _ => ("true", &mut self.et),
             };
             let pf = e.role(cf, 0);
+            let eff_f = interpret(&e.buf);
             let pb = e.role(cb, 1);
+            let eff_b = interpret(&e.buf);
+            e.role(cu, 2);
+            let eff_u = interpret(&e.buf);
+            // fg + bg + underline colour in ONE FaceModify: what is in effect afterwards, per role?
+            let fm = FaceModify {
+                fg: Some(cf),
+                bg: Some(cb),
+                underline: if straight { Some(UnderlineStyle::Straight) } else { None },
+                underline_color: Some(cu),
+                ..FaceModify::default()
+            };
+            let whole_fm = e.run(TerminalCommand::FaceModify(fm));
+            let got_fm = canon(&e.buf, &whole_fm);
+            let eff_fm = interpret(&e.buf);
             let whole = e.run(TerminalCommand::Face(face));
             let got = canon(&e.buf, &whole);
+            let eff_face = interpret(&e.buf);
             let want = match (pf, pb) {
                 (Some(a), Some(b)) => {
                     let mut v = vec![0u32];
@@ -1003,10 +1129,43 @@ impl Ctx {
                     json!(got),
                 );
             }
+            // terminal interpretation (last selection wins): per role, the selection in effect must be the one
+            // the role's colour gets on its own - those were judged by the oracles of the single roles
+            if let (Some(f), Some(b), Some(u)) = (eff_f, eff_b, eff_u) {
+                let want_fm = Eff { fg: f.fg, bg: b.bg, ul: u.ul };
+                if eff_fm != Some(want_fm) {
+                    self.fail(
+                        "FaceModify with foreground, background and underline colour: the selection in effect (as a terminal reads the parameters, last selection wins) is not, for every role, the reduction of the colour requested for that role",
+                        json!({"depth": name, "role": "fmod", "r": fg[0], "g": fg[1], "b": fg[2], "bg": bg, "ul": ul, "underline": straight}),
+                        json!(want_fm.show()),
+                        json!({"parameters": got_fm, "selects": eff_fm.map(|e| e.show())}),
+                    );
+                }
+                let want_face = Eff { fg: f.fg, bg: b.bg, ul: None };
+                if eff_face != Some(want_face) {
+                    self.fail(
+                        "Face command: the selection in effect (as a terminal reads the parameters) is not, for every role, the reduction of the colour requested for that role",
+                        json!({"depth": name, "role": "face", "r": fg[0], "g": fg[1], "b": fg[2], "bg": bg}),
+                        json!(want_face.show()),
+                        json!({"parameters": got, "selects": eff_face.map(|e| e.show())}),
+                    );
+                }
+            }
             let near = |c: RGBA| {
                 let l = c.luma() as f64;
                 [0.165f64, 0.495, 0.83].iter().any(|m| (l - m).abs() < 1e-5)
             };
+            if !(depth == 0 && (any_masked || ul_masked)) && !(depth == 1 && (near(cf) || near(cb) || near(cu))) {
+                if let (Some(lf), Some(lb), Some(lu)) = (self.luma_int(cf.luma()), self.luma_int(cb.luma()), self.luma_int(cu.luma())) {
+                    self.out.corr(
+                        &format!(
+                            "c20 fmod {} {} {} {} {} {} {} {} {} {} {} {} {} {}",
+                            name, fg[0], fg[1], fg[2], bg[0], bg[1], bg[2], ul[0], ul[1], ul[2], lf, lb, lu, straight as u8
+                        ),
+                        &got_fm,
+                    );
+                }
+            }
             if !(depth == 0 && any_masked) && !(depth == 1 && (near(cf) || near(cb))) {
                 if let (Some(lf), Some(lb)) = (self.luma_int(cf.luma()), self.luma_int(cb.luma())) {
                     self.out.corr(
@@ -1275,7 +1434,11 @@ fn main() {
         }
         if let Some(o) = inp["bg"].as_array() {
             if o.len() == 3 {
-                ctx.face_path([get(&inp["r"]), get(&inp["g"]), get(&inp["b"])], [get(&o[0]), get(&o[1]), get(&o[2])]);
+                let u = match inp["ul"].as_array().filter(|u| u.len() == 3) {
+                    Some(u) => [get(&u[0]), get(&u[1]), get(&u[2])],
+                    None => [get(&o[2]), get(&inp["r"]), get(&o[0])],
+                };
+                ctx.face_path([get(&inp["r"]), get(&inp["g"]), get(&inp["b"])], [get(&o[0]), get(&o[1]), get(&o[2])], u);
             }
         }
         ctx.flush_batch();
@@ -1328,8 +1491,8 @@ fn main() {
                 [rng.below(256) as u8, rng.below(256) as u8, rng.below(256) as u8]
             }
         };
-        let (f, b) = (pick(&mut rng), pick(&mut rng));
-        ctx.face_path(f, b);
+        let (f, b, u) = (pick(&mut rng), pick(&mut rng), pick(&mut rng));
+        ctx.face_path(f, b, u);
     }
 
     if cfg.thorough {
